@@ -191,10 +191,9 @@ async fn process_leader_message(
             ClientWriteCommand::Delete(key) => {
                 worterbuch.delete(key, INTERNAL_CLIENT_ID).await.map(|_| ())
             }
-            ClientWriteCommand::PDelete(pattern) => worterbuch
-                .pdelete(pattern, INTERNAL_CLIENT_ID)
-                .await
-                .map(|_| ()),
+            ClientWriteCommand::PDelete(pattern) => {
+                worterbuch.pdelete_replicated(pattern).await.map(|_| ())
+            }
         },
     };
 
